@@ -1,5 +1,6 @@
 """Obligation bookkeeping, known-findings handling, evidence and replay files."""
 import json
+import re
 import os
 import time
 
@@ -39,7 +40,8 @@ class Ctx:
 
     def ob(self, rule, func, detail, ok, reason="", site="", extra=None):
         """Record one obligation.  key = property/rule/function/detail (no line numbers)."""
-        key = "%s/%s/%s/%s" % (self.pid, rule, func, detail)
+        # closure indices are renumbered by unrelated edits: keep them out of the key
+        key = "%s/%s/%s/%s" % (self.pid, rule, re.sub(r"\{closure#\d+\}", "{closure}", func), detail)
         self.obls.append({
             "key": key, "rule": rule, "func": func, "detail": detail,
             "status": "discharged" if ok else "violated",
